@@ -291,6 +291,51 @@ def r02j(ctx, rep, rule="R02j"):
         rep.anchor_lost(rule, "registration of the procedure form in internally_defined_symbols")
 
 
+def r02m(ctx, rep, rule="R02m"):
+    """formals are not expressions"""
+    facts = ctx["facts"]
+    TPA = "marwood::vm::compile::<impl marwood::vm::Vm>::transform_procedure_application"
+    rep.rule(rule, "a binding position is not an expression: the formals of a lambda and the head of a procedure definition name "
+             "variables, and a variable may be named like a derived form (R7RS 4.3: a binding shadows a keyword). The expander "
+             "walks expressions; in transform_procedure_application, on the path where the form was recognised as lambda / define, "
+             "the element that follows the keyword is copied, not handed to Vm::transform — otherwise (lambda (or x) x) has its "
+             "formals (or x) expanded as a use of `or` and becomes (lambda x x), and (let ((when 5)) when) fails to expand.")
+    f = need(rep, rule, facts, TPA)
+    if f is None:
+        return
+    kws = set()
+    for bb, t in f.calls():
+        if callee(t) == "marwood::cell::Cell::is_symbol_str":
+            for a in t["args"]:
+                c = op_const(a)
+                if c is not None and "str" in c:
+                    kws.add(c["str"])
+    key = rule + "|transform_procedure_application|formals-untouched"
+    if not {"lambda", "define"} <= kws:
+        rep.fail(rule, key, "transform_procedure_application does not recognise lambda / define at all: their formals are expanded like "
+                 "operands, so a parameter named like a derived form is rewritten as a use of that form", [f.span])
+        return
+    # transform calls whose argument is `rest.car().unwrap()` taken directly (not an element of the spliced body, not the operator)
+    bad = []
+    for bb, t in f.calls():
+        if not (callee(t) or "").endswith("::transform") or len(t["args"]) < 2:
+            continue
+        o = f.origin(t["args"][1])
+        if o[0] == "call" and (callee(o[1]) or "").endswith("Option::<T>::unwrap"):
+            oo = f.origin(o[1]["args"][0])
+            whole_form = oo[0] == "call" and oo[1]["args"] and f.origin(oo[1]["args"][0])[0] == "arg" and \
+                f.origin(oo[1]["args"][0])[1] == 2 and not f.origin(oo[1]["args"][0])[2]
+            if oo[0] == "call" and callee(oo[1]) == "marwood::cell::Cell::car" and not whole_form:   # car of the form itself = the operator
+                # which list is it the car of?  the operand loop advances `rest`; the body branch reads it once, before the loop
+                inloop = any(bb in ((f.reach_from(h) & f.reach_back(src)) | {h, src}) for src, h in f.back_edges())
+                if not inloop:
+                    bad.append(t["loc"])
+    (rep.ok if not bad else rep.fail)(
+        rule, key, "the formals of lambda / the head of a procedure definition are copied, not expanded" if not bad else
+        "transform_procedure_application hands the element after the keyword — the formals of a lambda, the head of a procedure "
+        "definition — to Vm::transform: a formals list that starts with the name of a derived form is expanded as a use of it", bad)
+
+
 def run(ctx, rep):
     C01.r01a(ctx, rep, rule="R02a", only=("free-variable-scan",))
     r02b(ctx, rep)
@@ -317,6 +362,7 @@ def run(ctx, rep):
             n += 1
     rep.floor("R02i", "trace obligations on environment cells", n, 8)
     C01.r01n(ctx, rep, rule="R02g", only=("find_free_symbols_in_template",))
+    r02m(ctx, rep)
     C01.r01q(ctx, rep, rule="R02k")
     rep.rules["R02k"] = "a definition in a body binds in that body, also when a begin delivers it: " + rep.rules["R02k"]
     rep.not_decided += ["a wrong slot number or capture distance", "values denoted by references in concrete programs"]
